@@ -25,6 +25,7 @@
 import RoProofs.Ops.TransformSpecs
 import RoProofs.Chan
 import RoProofs.ChanFrom
+import RoProofs.ChanShape
 namespace Ro.C17
 open Ro Ro.Chan
 
@@ -179,6 +180,12 @@ theorem collect_exact {α : Type} (raw : List (Notif α)) :
       | .error c e => some { vals := (values raw).map (·.2), ctx := some c, err := some e }
       | .complete c => some { vals := (values raw).map (·.2), ctx := some c, err := none } := collect_spec raw
 
+/-! ### the source is written the way the model reads it (regenerated on every run) -/
+
+/-- the subscribe closures of ToChannel, detachOn and FromChannel, as translated by go/extract on
+    this run, are the statements the transition systems were written from (RoProofs/ChanShape.lean) -/
+theorem chan_shapes : RoGen.ChanShape.table = Chan.expectedShapes := Chan.chan_shapes_ok
+
 /-! ### non-vacuity -/
 
 -- a reachable ToChannel state in which the reader has everything and the channel was closed once
@@ -217,3 +224,4 @@ end Ro.C17
 #print axioms Ro.C17.fromChannel_done_once
 #print axioms Ro.C17.fromChannel_stops_reading
 #print axioms Ro.C17.collect_exact
+#print axioms Ro.C17.chan_shapes
